@@ -656,20 +656,28 @@ def generate(repo):
 
     # ---- no module-level mutable cache reachable from a *_seq routine whose key omits the dtype of the coordinates
     def no_dtype_blind_cache():
-        """True: no *_seq routine (nor a module-local helper it calls) writes to a module-level container / global;
-        False: one does, caches something computed from an array parameter, and the key expression does not mention `dtype`;
-        None: a cache whose key handling this reader does not understand."""
+        """True: no *_seq routine (nor a module-local helper it calls, transitively) writes to a module-level container, a mutable
+        default argument or a function attribute;
+        False: one does, and the stored value depends (through any chain of local assignments) on a parameter that the key either
+        does not mention at all or mentions only through attributes other than `.dtype` (x.ndim, x.shape, len(x), ...) -- the cache
+        is blind to the dtype (or to the value) of that parameter;
+        None: a cache whose handling this reader does not understand (`global`, a key / value it cannot read)."""
         verdict = True
         for rel in ('jacobi', 'cheby', 'legendre', 'hermite', 'laguerre', 'dickson', 'zernike', 'qpoly', 'xy'):
             mod, _ = load(repo, f'prysm/polynomials/{rel}.py')
+
+            def is_container(v):
+                return isinstance(v, (ast.Dict, ast.List, ast.Set, ast.DictComp, ast.ListComp, ast.SetComp)) or \
+                    isinstance(v, ast.Call) and ast.unparse(v.func).split('.')[-1] in (
+                        'dict', 'list', 'set', 'defaultdict', 'OrderedDict', 'WeakValueDictionary', 'deque')
             mutable = set()
             for st in mod.body:
-                if isinstance(st, ast.Assign) and isinstance(st.value, (ast.Dict, ast.List, ast.Set)) or \
-                        isinstance(st, ast.Assign) and isinstance(st.value, ast.Call) and \
-                        ast.unparse(st.value.func).split('.')[-1] in ('dict', 'list', 'set', 'defaultdict', 'OrderedDict', 'WeakValueDictionary'):
-                    mutable |= {t.id for t in st.targets if isinstance(t, ast.Name)}
+                if isinstance(st, (ast.Assign, ast.AnnAssign)) and st.value is not None and is_container(st.value):
+                    tg = st.targets if isinstance(st, ast.Assign) else [st.target]
+                    mutable |= {t.id for t in tg if isinstance(t, ast.Name)}
             funcs = {f.name: f for f in mod.body if isinstance(f, ast.FunctionDef)}
-            reach, todo = set(), [nm for nm in funcs if nm.endswith('_seq')]
+            # every function of the module: the *_seq routines, the single-order functions, and whatever they call
+            reach, todo = set(), list(funcs)
             while todo:
                 nm = todo.pop()
                 if nm in reach:
@@ -680,33 +688,100 @@ def generate(repo):
                         todo.append(c.func.id)
             for nm in reach:
                 fn = funcs[nm]
-                params = {a.arg for a in fn.args.args}
-                arrayish = {q for q in params if any(isinstance(n, ast.Attribute) and isinstance(n.value, ast.Name) and n.value.id == q
-                                                     and n.attr in ('dtype', 'shape', 'ndim') for n in ast.walk(fn))}
+                # a memoised function (functools.lru_cache / cache) is keyed by its arguments only: it must not read other state
+                if any('cache' in ast.unparse(d) for d in fn.decorator_list) and \
+                        any(isinstance(q, ast.Attribute) and isinstance(q.value, ast.Name) and q.value.id == 'config' for q in ast.walk(fn)):
+                    verdict = False
+                allargs = fn.args.posonlyargs + fn.args.args + fn.args.kwonlyargs
+                defaults = dict(zip([a.arg for a in (fn.args.posonlyargs + fn.args.args)][::-1], fn.args.defaults[::-1]))
+                defaults.update({a.arg: d for a, d in zip(fn.args.kwonlyargs, fn.args.kw_defaults) if d is not None})
+                local_mut = {a for a, d in defaults.items() if is_container(d)}          # def f(..., _cache={})
+                params = {a.arg for a in allargs} - local_mut
+                # which parameters does each local name depend on (fixpoint over the assignments of the function)
+                dep = {q: {q} for q in params}
+                changed = True
+                while changed:
+                    changed = False
+                    for a in ast.walk(fn):
+                        tg, val = [], None
+                        if isinstance(a, ast.Assign):
+                            tg, val = a.targets, a.value
+                        elif isinstance(a, (ast.AugAssign, ast.AnnAssign)) and a.value is not None:
+                            tg, val = [a.target], a.value
+                        elif isinstance(a, (ast.For, ast.comprehension)):
+                            tg, val = [a.target], a.iter
+                        elif isinstance(a, ast.NamedExpr):
+                            tg, val = [a.target], a.value
+                        if val is None:
+                            continue
+                        src = set()
+                        for q in ast.walk(val):
+                            if isinstance(q, ast.Name):
+                                src |= dep.get(q.id, set())
+                        for t in tg:
+                            for q in ast.walk(t):
+                                if isinstance(q, ast.Name) and not src <= dep.get(q.id, set()):
+                                    dep[q.id] = dep.get(q.id, set()) | src
+                                    changed = True
+
+                def mentions(e, depth=0):
+                    """-> (parameters mentioned whole, parameters mentioned through .dtype, parameters mentioned through another
+                    attribute or len()); local names are resolved through the assignments that define them"""
+                    whole, dty, other = set(), set(), set()
+                    via = {}
+                    for q in ast.walk(e):
+                        if isinstance(q, ast.Attribute) and isinstance(q.value, ast.Name):
+                            via.setdefault(id(q.value), q.attr)
+                        if isinstance(q, ast.Call) and isinstance(q.func, ast.Name) and q.func.id == 'len':
+                            for r in q.args:
+                                if isinstance(r, ast.Name):
+                                    via.setdefault(id(r), 'len')
+                    for q in ast.walk(e):
+                        if not isinstance(q, ast.Name):
+                            continue
+                        if q.id in params:
+                            a = via.get(id(q))
+                            (whole if a is None else dty if a == 'dtype' else other).add(q.id)
+                        elif q.id in dep and depth < 6:
+                            for a in ast.walk(fn):
+                                if isinstance(a, ast.Assign) and any(isinstance(t, ast.Name) and t.id == q.id for t in a.targets):
+                                    w, d, o = mentions(a.value, depth + 1)
+                                    whole |= w
+                                    dty |= d
+                                    other |= o
+                    return whole, dty, other
+
                 for n in ast.walk(fn):
                     if isinstance(n, ast.Global):
                         return None
                     store = None
+
+                    def is_cache(v):
+                        return (isinstance(v, ast.Name) and (v.id in mutable or v.id in local_mut)) or \
+                            (isinstance(v, ast.Attribute) and isinstance(v.value, ast.Name) and v.value.id in funcs)     # f.cache[...]
                     if isinstance(n, ast.Assign):
                         for t in n.targets:
-                            if isinstance(t, ast.Subscript) and isinstance(t.value, ast.Name) and t.value.id in mutable:
+                            if isinstance(t, ast.Subscript) and is_cache(t.value):
                                 store = (t.slice, n.value)
-                    if isinstance(n, ast.Call) and isinstance(n.func, ast.Attribute) and isinstance(n.func.value, ast.Name) \
-                            and n.func.value.id in mutable and n.func.attr in ('setdefault', 'update', 'append', '__setitem__'):
+                    if isinstance(n, ast.Call) and isinstance(n.func, ast.Attribute) and is_cache(n.func.value) \
+                            and n.func.attr in ('setdefault', 'update', 'append', '__setitem__', 'add', 'insert', 'extend'):
                         store = (n.args[0] if n.args else None, n.args[-1] if n.args else None)
+                        if n.func.attr in ('append', 'add', 'extend', 'update') and len(n.args) == 1:
+                            store = (n.args[0], n.args[0])
                     if store is None:
                         continue
                     key, val = store
                     if key is None or val is None:
                         return None
-                    # resolve a key given as a local name (`key = (...)` earlier in the function)
-                    ktxt = ast.unparse(key)
-                    if isinstance(key, ast.Name):
-                        defs = [a.value for a in ast.walk(fn) if isinstance(a, ast.Assign) and any(isinstance(t, ast.Name) and t.id == key.id for t in a.targets)]
-                        ktxt = ' '.join(ast.unparse(d) for d in defs)
-                    uses_array = any(isinstance(q, ast.Name) and q.id in arrayish for q in ast.walk(val))
-                    if uses_array and 'dtype' not in ktxt:
-                        verdict = False
+                    vdep = set()
+                    for q in ast.walk(val):
+                        if isinstance(q, ast.Name):
+                            vdep |= dep.get(q.id, set())
+                    whole, dty, other = mentions(key)
+                    for q in vdep:
+                        if q in whole or q in dty:
+                            continue
+                        verdict = False           # the value depends on q; the key ignores q, or sees only its ndim / shape / length
         return verdict
     g.fact('seqRoutinesHaveNoDtypeBlindCache', 'prysm/polynomials/*.py', no_dtype_blind_cache)
 
